@@ -10,7 +10,7 @@ import hashlib
 import struct
 
 WS_GUID = b'258EAFA5-E914-47DA-95CA-C5AB0DC85B11'
-SMALL = 48          # payloads up to this many bytes are written out in traces
+SMALL = 130         # payloads up to this many bytes are written out in traces (covers every control-frame payload)
 
 
 def pv(b):
